@@ -142,10 +142,12 @@ CHECKS = {
              "checks the machine against the meaning and enumerates every key sequence up to 8-10 keys with line breaks anywhere "
              "outside literals; every complete behaviour is fed to the real Terminal.ReadLine under six read schedules (typed, per "
              "line, pasted, bracketed paste in three forms); outputs that differ from the machine's are judged by TLC itself "
-             "(ConsoleJudge.tla): whitespace drift is a NOTE, anything else a violation.",
+             "(ConsoleJudge.tla): whitespace drift is a NOTE, anything else a violation. Code -> spec: seeded statement lists of 200..1200 bytes with "
+             "multi-byte characters placed to straddle the console's 256-byte read boundary in every way are pasted under nine read "
+             "schedules (readers returning at most 256/100/7 bytes) and every output is judged by TLC against the reference meaning.",
         design_ref="DESIGN.md 6 (C20)",
         note="Trusted: TLC, Json module, the in-package harness (feeds bytes, copies ReadLine results). Alphabet {1-2 letters, "
-             "space, ;, ', \"} + Enter(13); line breaks inside literals, backslash escapes, backquotes and comments are outside "
+             "space, ;, ', \", optionally backslash} + Enter(13); line breaks inside literals, backquotes and comments are outside "
              "the property and not modelled; bounded length.",
         technique="TLA+ spec (Console.tla) model-checked with TLC; every complete behaviour replayed on Terminal.ReadLine; oracle evaluated by TLC on real outputs (ConsoleJudge.tla)",
     ),
